@@ -1,5 +1,5 @@
-(* C01 -- inbound stream integrity.  Statements only; proofs in Proofs/LoopData.v. *)
-From GV Require Import Lib.Trace Model.Loop Spec.LoopSpec Proofs.LoopData.
+(* C01 -- inbound stream integrity.  Statements only; proofs in Proofs/LoopData.v and Proofs/LoopProgress.v. *)
+From GV Require Import Lib.Trace Model.Loop Spec.LoopSpec Proofs.LoopData Proofs.LoopProgress.
 Open Scope Z_scope.
 
 (* For every input stream: what Read/Next/Peek/WriteTo hand to the handler is always the
@@ -11,3 +11,12 @@ Open Scope Z_scope.
 Theorem C01_inbound_integrity : forall i t, run_history i = Some t -> inbound_ok t = true.
 Proof. exact inbound_holds. Qed.
 Print Assumptions C01_inbound_integrity.
+
+(* Progress ("a peer that keeps sending is never left with readable data that is not handed to
+   OnTraffic"), edge-triggered mode, where no new event announces data a read left behind: for
+   every input stream, a read that filled the buffer it was given is followed -- before the loop
+   goes back to waiting -- by another read, a queued read task, or the close of that connection.
+   (Level-triggered: the kernel reports the descriptor again; nothing to prove on the loop side.) *)
+Theorem C01_inbound_progress : forall i t, run_history i = Some t -> in_progress_ok (is_et i) t = true.
+Proof. exact in_progress_holds. Qed.
+Print Assumptions C01_inbound_progress.
